@@ -11,9 +11,16 @@ the level of the individual accesses of `allocate_sequence_number` under ALL int
 source by `alloc_section_tied : … := by decide` over `Generated/Denm.lean`), reception into the LDM WITH its reactive
 maintenance (`received_stored`, `received_collected_witness`: C17-KF1 = C12-KF1 seen through reception).
 `model_gbc_request_fields` / `model_feedLdm_appends` (DenmLemmas) restate definitions and are NOT claimed here.
+
+Round 4: OVERLAPPING events at the level of the individual accesses of the repetition body (build/fill -> encode ->
+circle centre -> hand-over) under ALL interleavings of the repetition threads (`overlapping_events_*`, model
+`FlexModel/Fac/DenmRep.lean`), tied to the source by `repetition_message_tied : … := by decide` over the regenerated
+facts "the message object handed over in a repetition is local to that repetition"; `shared_message_witness` is seeded
+change C17-m5 (one `self.new_denm` refilled by every repetition of every event).
 -/
 import FlexModel.Fac.DenmLemmas
 import FlexModel.Fac.DenmConc
+import FlexModel.Fac.DenmRepLemmas
 
 namespace Props.C17
 open FlexModel.Fac.Denm
@@ -287,6 +294,98 @@ theorem narrowed_section_witness :
       (run (mkSys (fun _ => 0) (fineProgs layoutNarrow 2)) narrowSched).sh (reg 1) ∧
     layoutNarrow ∉ okLayouts := by
   refine ⟨narrow_duplicates.1, narrow_duplicates.2.1, by decide⟩
+
+/-! ## Overlapping events: the repetition body under all interleavings (round 4) -/
+
+open FlexModel.Fac.Denm.Rep in
+/-- **regenerated structural fact** (re-read from /repo on every run by `harness/gen_denm.py`): the message object
+    handed over in a repetition is local to that repetition - the argument of every `self.transmit_denm(..)` is a local
+    bound in the same loop body to a fresh `DecentralizedEnvironmentalNotificationMessage()`, nothing reachable from
+    `request_denm_sending` / `trigger_denm_messages` / `send_collision_risk_warning_denm` stores through `self`, a
+    parameter or a global, and the instance attributes read there are the collaborators only. -/
+theorem repetition_message_tied :
+    Generated.Denm.bodySharedStores = 0 ∧ (∀ a ∈ Generated.Denm.bodySelfAttrs, a ∈ collaborators) ∧
+    Generated.Denm.transmitArgs ≠ [] ∧ (∀ c ∈ Generated.Denm.transmitArgs, c = 0) ∧ factsOk = true := by
+  decide
+
+open FlexModel.Fac.Denm.Rep in
+/-- hence the scope of the message object in the tree under check -/
+theorem source_scope_per_repetition : sourceScope = Scope.perRepetition := by
+  simp [sourceScope, repetition_message_tied.2.2.2.2]
+
+open FlexModel.Fac.Denm.Rep in
+/-- **every DENM is its event's own, whatever the overlap**: any number of events of one station, each repeated by
+    its own thread, the threads interleaved in ANY way at the level of the individual accesses to the message object
+    (new / fill identity / fill position / encode / read latitude / read longitude + hand-over).  Every DENM a thread
+    hands to the transport layer carries the action id (station, sequence number) of THAT thread's event, the event
+    position of that event, and is geo-broadcast to a circle centred on that position. -/
+theorem overlapping_events_own_identity (evs : List Event) (sched : List Nat) :
+    ∀ o ∈ (Rep.run sourceScope evs sched).out, Own evs o := by
+  rw [source_scope_per_repetition]
+  exact (inv_run evs sched).outs
+
+open FlexModel.Fac.Denm.Rep in
+/-- … all DENMs of one event therefore carry ONE action id, and events with different sequence numbers (what
+    `concurrent_events_distinct_sequence_numbers` delivers) never share one, under every interleaving. -/
+theorem overlapping_events_stable_and_distinct (evs : List Event) (sched : List Nat)
+    (o₁ o₂ : Out) (h₁ : o₁ ∈ (Rep.run sourceScope evs sched).out) (h₂ : o₂ ∈ (Rep.run sourceScope evs sched).out) :
+    (o₁.thread = o₂.thread → o₁.aid = o₂.aid ∧ o₁.centre = o₂.centre) ∧
+    (∀ e₁ e₂, evs[o₁.thread]? = some e₁ → evs[o₂.thread]? = some e₂ → e₁.seq ≠ e₂.seq → o₁.aid ≠ o₂.aid) := by
+  obtain ⟨e₁, he₁, ha₁, _, hc₁⟩ := overlapping_events_own_identity evs sched o₁ h₁
+  obtain ⟨e₂, he₂, ha₂, _, hc₂⟩ := overlapping_events_own_identity evs sched o₂ h₂
+  constructor
+  · intro ht
+    rw [ht, he₂] at he₁
+    have : e₂ = e₁ := Option.some.inj he₁
+    subst this
+    exact ⟨by rw [ha₁, ha₂], by rw [hc₁, hc₂]⟩
+  · intro f₁ f₂ hf₁ hf₂ hne
+    rw [he₁] at hf₁; rw [he₂] at hf₂
+    have e1 : e₁ = f₁ := Option.some.inj hf₁
+    have e2 : e₂ = f₂ := Option.some.inj hf₂
+    subst e1; subst e2
+    rw [ha₁, ha₂]
+    intro hc
+    injection hc with _ hs
+    exact hne hs
+
+open FlexModel.Fac.Denm.Rep in
+/-- **count under overlap**: when every repetition thread has finished, thread `t` has handed over exactly the
+    `reps` (= ⌈T/i⌉, theorem `count`) DENMs of its event - none lost to, none taken over from another event. -/
+theorem overlapping_events_count (evs : List Event) (sched : List Nat)
+    (hfin : Rep.finished evs (Rep.run sourceScope evs sched) = true) (t : Nat) (e : Event) (he : evs[t]? = some e) :
+    (outsOf (Rep.run sourceScope evs sched) t).length = e.reps := by
+  rw [source_scope_per_repetition] at hfin ⊢
+  rw [(inv_run evs sched).cnt t]
+  have hle := k_le_reps evs sched t e he
+  have hlt : t < evs.length := by
+    rcases Nat.lt_or_ge t evs.length with h | h
+    · exact h
+    · rw [List.getElem?_eq_none h] at he; cases he
+  have := (List.all_eq_true.mp hfin) t (List.mem_range.mpr hlt)
+  simp only [he, decide_eq_true_eq] at this
+  omega
+
+open FlexModel.Fac.Denm.Rep in
+/-- non-vacuity: two overlapping events (3 and 2 repetitions); thread 1 runs a whole repetition between thread 0's
+    fill and thread 0's encode, then both alternate; the run is complete, 3 + 2 hand-overs, each its event's own -/
+example :
+    let evs : List Event := [⟨4242, 65535, ⟨413870000, 21120000⟩, 3⟩, ⟨4242, 0, ⟨-338680000, -701234567⟩, 2⟩]
+    let s := Rep.run sourceScope evs ([0, 0, 0, 1, 1, 1, 1, 1, 1, 0, 0, 0] ++ roundRobin 2 12)
+    Rep.finished evs s = true ∧ (outsOf s 0).length = 3 ∧ (outsOf s 1).length = 2 ∧
+    s.out.head? = some ⟨1, ⟨4242, 0⟩, ⟨-338680000, -701234567⟩, ⟨-338680000, -701234567⟩⟩ := by
+  decide +kernel
+
+open FlexModel.Fac.Denm.Rep in
+/-- seeded change C17-m5 as a witness (`Scope.shared`: ONE message object refilled by every repetition of every
+    event): event 1's thread refills the object between event 0's fill and event 0's encode - event 0's first DENM goes
+    out with event 1's action id, to event 1's position; the same interleaving is harmless with per-repetition objects. -/
+theorem shared_message_witness :
+    let evs : List Event := [⟨4242, 0, ⟨413870000, 21120000⟩, 1⟩, ⟨4242, 1, ⟨-338680000, -701234567⟩, 1⟩]
+    let sched := [0, 0, 0, 1, 1, 1, 0, 0, 0, 1, 1, 1]
+    (Rep.run .shared evs sched).out.head? = some ⟨0, ⟨4242, 1⟩, ⟨-338680000, -701234567⟩, ⟨-338680000, -701234567⟩⟩ ∧
+    (Rep.run .perRepetition evs sched).out.head? = some ⟨0, ⟨4242, 0⟩, ⟨413870000, 21120000⟩, ⟨413870000, 21120000⟩⟩ := by
+  decide
 
 /-! ## Degenerate intervals (outside the property's range 100…10000 ms): explicit branches -/
 
